@@ -93,13 +93,13 @@ def install(ctx):
         vals = list(_ARGS) + list(_KWARGS.values())
         return mon.post_query(vals[0], vals[1], result)
 
-    checked_query = icontract.ensure(post, error=contracts.ContractError)(orig_query)
+    checked_query = icontract.ensure(post, error=contracts.ContractError, enabled=True)(orig_query)
 
     @functools.wraps(orig_query)
-    def intersection(self, bbox):
+    def intersection(self, *args, **kwargs):      # signature-agnostic (private extra parameters are allowed)
         mon.depth_query += 1
         try:
-            return checked_query(self, bbox)
+            return checked_query(self, *args, **kwargs)
         finally:
             mon.depth_query -= 1
 
@@ -239,6 +239,11 @@ def gen_boxes(rng):
         ids = [i * 7 + 3 for i in ids]
     elif rng.random() < 0.1:
         ids = ["p%d" % i for i in ids]
+    elif len(boxes) >= 2 and rng.random() < 0.12:
+        # one identifier for several boxes (the strokes of one multi-part shape): the identifier is in the
+        # answer exactly when ANY of its boxes shares a point with the query
+        labels = ["s%d" % k for k in range(max(1, len(boxes) // rng.choice((2, 3, 5))))]
+        ids = [rng.choice(labels) for _ in boxes]
     return cls, [(ident, tuple(box)) for ident, box in zip(ids, boxes)]
 
 
@@ -326,8 +331,15 @@ def one_tree(ctx, mon, cls, boxes, queries):
         mon.depth_init = 0
         return
     except RecursionError:
-        ctx.violation("construction does not terminate (recursion limit)", {"fn": "Index", "boxes": boxes})
         mon.depth_init = 0
+        if cls.startswith("geometric progression"):
+            # this collection NEEDS a tree as deep as it is long (150-400 levels); how many levels an
+            # implementation can afford before the interpreter's (Python or C) recursion budget runs out is a
+            # resource limit that the statement does not fix (the unchanged code gives up near 600 levels) -
+            # counted, not judged.  Everywhere else a recursion error means construction does not terminate.
+            ctx.count("observed:recursion budget exhausted on a tree that needs hundreds of levels (not decided)")
+            return
+        ctx.violation("construction does not terminate (recursion limit)", {"fn": "Index", "boxes": boxes})
         return
     except Exception as exc:
         mon.depth_init = 0
@@ -337,9 +349,13 @@ def one_tree(ctx, mon, cls, boxes, queries):
             ctx.count("observed:empty collection raises %s (outside the statement: no boxes)" % type(exc).__name__)
         return
     ctx.count("monitor:constructions completed")
+    try:
+        shared_ids = len({b[0] for b in boxes}) < len(boxes)
+    except TypeError:
+        shared_ids = False
     ctx.extra["max_nodes_in_one_tree"] = max(ctx.extra.get("max_nodes_in_one_tree", 0), mon.nodes)
     for qcls, query in queries:
-        ctx.case([cls, "query:" + qcls, "n=%s" % ("0" if not boxes else "1" if len(boxes) == 1 else
+        ctx.case([cls, "query:" + qcls] + (["identifiers shared by several boxes"] if shared_ids else []) + ["n=%s" % ("0" if not boxes else "1" if len(boxes) == 1 else
                                                  "2..5" if len(boxes) <= 5 else "6..60" if len(boxes) <= 60 else ">60")],
                  (tuple(boxes), query), nontrivial=len(boxes) >= 2)
         try:
@@ -436,6 +452,7 @@ def run(ctx):
                 "query:covering all", "query:disjoint from all", "query:equal to a stored box",
                 "query:lattice query", "query:random", "n=1", "n=2..5", "n=6..60", "n=>60"):
         ctx.need(cls, 100)
+    ctx.need("identifiers shared by several boxes", 1_000)
     ctx.need("monitor:intersection evaluated (top level)", 20_000)
     ctx.need("monitor:constructions completed", 4_000)
     ctx.need("history: after calls to other library functions", 150)
